@@ -48,6 +48,28 @@ def name_tree(el) -> dict:
     return {"n": local(el.tag), "t": JR_TEMPLATE in el.attrib, "k": [name_tree(c) for c in el]}
 
 
+PREFIX_OF = {v: k for k, v in {
+    "jr": "http://openrosa.org/javarosa", "odk": "http://www.opendatakit.org/xforms",
+    "orx": "http://openrosa.org/xforms", "entities": "http://www.opendatakit.org/xforms/entities",
+}.items()}
+
+
+def name_tree_attrs(el) -> dict:
+    """Instance tree in which every attribute is an extra pseudo-child named `@name` (for namespaced
+    attributes `@prefix:local` with the conventional prefix), so that attribute paths such as
+    /data/meta/entity/@id resolve by the same child lookup as element paths."""
+    kids = []
+    for a in el.attrib:
+        if a == JR_TEMPLATE:
+            continue
+        if "}" in a:
+            ns, loc = a[1:].split("}", 1)
+            kids.append({"n": "@" + PREFIX_OF.get(ns, "ns") + ":" + loc, "t": False, "k": []})
+        else:
+            kids.append({"n": "@" + a, "t": False, "k": []})
+    return {"n": local(el.tag), "t": JR_TEMPLATE in el.attrib, "k": kids + [name_tree_attrs(c) for c in el]}
+
+
 def nt_eq(a, b) -> bool:
     return a["n"] == b["n"] and bool(a["t"]) == bool(b["t"]) and len(a["k"]) == len(b["k"]) and all(
         nt_eq(x, y) for x, y in zip(a["k"], b["k"])
@@ -91,6 +113,7 @@ def observe(xform: str) -> dict:
             setvalue_refs.append(el.get("ref"))
     return {
         "instance": name_tree(prim),
+        "instance_attrs": name_tree_attrs(prim),
         "binds": binds,
         "body": body_refs,
         "setvalues": setvalue_refs,
